@@ -49,8 +49,8 @@ def run(c):
         bad = [i for i in bad if i not in skip]
         # a traversal of the store must be in key order (an item merged into the wrong leaf shows up out of place)
         for i, (n, h, evs) in enumerate(traces):
-            if i in skip:
-                continue
+            if i in skip or any(e.get("ev") == "CommitEnd" and not e.get("ok") for e in evs):
+                continue    # a failed commit is classified below (commit-failed:...); what it leaves is C07's subject
             for e in evs:
                 ks = [x["k"] for x in (e.get("items") or [])] if e.get("ev") == "Observe" else []
                 if ks != sorted(ks) or (e.get("ev") == "Observe" and e.get("exists") and e.get("count") != len(ks)):
